@@ -46,7 +46,8 @@ AXES = {
 # bucket spacing in phase spaces = 1.39 * 9e5 / fs : lattice 1.39, 1.097, 1.06, 1.035, 1.0008
 for _pat in ("1e-3 1e-3", "1e-3 0 1e-3", "1e-3 1e-3 0 1e-3 1e-3", "1e-3 1e-3 1e-3 1e-3 1e-3"):
     for _fs in (900000, 1140000, 1180000, 1208700, 1250000):
-        for _rp in ("", "|RoundPadding=false", "|RoundPadding=false|padding=1"):
+        # ... at the base padding 2, without rounding, without padding, at the program's default padding 8 and at a long non-rounded padding
+        for _rp in ("", "|RoundPadding=false", "|RoundPadding=false|padding=1", "|padding=8", "|RoundPadding=false|padding=5.3"):
             AXES["BunchCurrent"].append("%s|SynchrotronFrequency=%d%s" % (_pat, _fs, _rp))
 
 
